@@ -106,10 +106,20 @@ type c01req struct {
 // issue performs one request and classifies the outcome.
 // served: stamp of the serving upstream ("" if refused); status: HTTP status or 0.
 func (c *c01cluster) issue(q c01req, nonce string) (stamp string, status int, err error) {
+	return c.issueT(q, nonce, 20*time.Second)
+}
+
+func (c *c01cluster) issueT(q c01req, nonce string, tcpTimeout time.Duration) (stamp string, status int, err error) {
 	n := c.nodes[q.Entry]
 	if q.Mode == "tcp" {
-		conn, st, err := DialTCP(n, q.Ep, "", 20*time.Second)
+		conn, st, err := DialTCP(n, q.Ep, "", tcpTimeout)
 		if err != nil {
+			if strings.Contains(err.Error(), "reading stamp") && tcpTimeout < 20*time.Second {
+				// under churn: the tunnel was opened to an upstream that
+				// announced go-away before accepting the stream; a TCP tunnel
+				// has no timeout of its own, so this is a refusal, not a hang
+				return "", 502, nil
+			}
 			// handshake refused: the error text carries the status
 			for _, code := range []int{502, 504, 400, 401, 404, 500} {
 				if strings.Contains(err.Error(), fmt.Sprint(code)) {
@@ -203,7 +213,12 @@ type c01fail struct {
 }
 
 func runC01Cluster(r *rand.Rand, nNodes, requests, churnOps int, sh *core.Shard) (f *c01fail, inconclusive string) {
-	nodes, err := StartCluster(nNodes, nil)
+	// proxy timeout 2 s: a request whose stream sits in the accept backlog of an
+	// upstream that announced go-away is answered 504 after the timeout, well
+	// inside the client's 20 s watchdog
+	nodes, err := StartCluster(nNodes, func(int) NodeOpts {
+		return NodeOpts{ProxyTimeout: 2 * time.Second, GossipInterval: 50 * time.Millisecond}
+	})
 	if err != nil {
 		return nil, "start cluster: " + err.Error()
 	}
@@ -307,7 +322,7 @@ func runC01Cluster(r *rand.Rand, nNodes, requests, churnOps int, sh *core.Shard)
 				q := c01req{Entry: wr.Intn(nNodes), Ep: ep, Mode: ms[wr.Intn(len(ms))]}
 				nonce := fmt.Sprintf("n%d", nonceSeq.Add(1))
 				c.inflight.Add(1)
-				st, status, err := c.issue(q, nonce)
+				st, status, err := c.issueT(q, nonce, 4*time.Second)
 				c.inflight.Add(-1)
 				sh.Count("requests_under_churn", 1)
 				switch {
@@ -370,6 +385,19 @@ func runC01Cluster(r *rand.Rand, nNodes, requests, churnOps int, sh *core.Shard)
 			for _, mode := range modesFor(ep) {
 				q := c01req{Entry: entry, Ep: ep, Mode: mode}
 				st, status, err := c.issue(q, fmt.Sprintf("p%d", nonceSeq.Add(1)))
+				for try := 0; try < 3 && err == nil && ((perEp[ep] > 0) != (st != "")); try++ {
+					// unexpected outcome: only believed if routing was settled
+					// before and is still settled (a node falsely suspected
+					// under load is legitimately skipped by routing)
+					if ok, _ := Settled(nodes); ok && try > 0 {
+						break
+					}
+					sh.Count("probe_retries_after_unsettled_routing", 1)
+					if ok, why := WaitSettled(nodes, 30*time.Second); !ok {
+						return nil, "routing did not settle again: " + why
+					}
+					st, status, err = c.issue(q, fmt.Sprintf("p%d", nonceSeq.Add(1)))
+				}
 				sh.Count("settled_probes", 1)
 				switch {
 				case err != nil:
